@@ -46,7 +46,7 @@ impl CrashCheck {
                 for (r, lens) in reference.write_lens.iter().enumerate() {
                     for i in 0..lens.len() {
                         // long logs: the first and last writes of an invocation, every 41st in between, and every long record
-                        if big && lens.len() > 48 && !(i < 12 || i + 12 >= lens.len() || i % 41 == 0 || lens[i] > 200) {
+                        if big && lens.len() > 160 && !(i < 12 || i + 12 >= lens.len() || i % 41 == 0 || lens[i] > 400) {
                             continue;
                         }
                         p.push((r, i, None));
@@ -85,13 +85,15 @@ impl CrashCheck {
                 }
                 b = if !big {
                     b + 1
-                } else if len <= 200 {
-                    // short records of a long log: both ends and the middle
-                    [1, len / 2, len - 1, len].into_iter().find(|x| *x > b).unwrap_or(len)
-                } else if b < 24 || b + 24 >= len {
-                    b + 1
                 } else {
-                    (b + 97).min(len - 24)
+                    // long logs: both ends of every record, thirds, and every 97th byte of long records
+                    let mut pts: Vec<usize> = vec![1, 2, 3, len / 3, len / 2, len.saturating_sub(3), len.saturating_sub(2), len.saturating_sub(1), len];
+                    let mut k = 97;
+                    while k < len {
+                        pts.push(k);
+                        k += 97;
+                    }
+                    pts.into_iter().filter(|x| *x > b).min().unwrap_or(len)
                 };
             }
         }
